@@ -118,8 +118,12 @@ def gen_spec(rng, cfg):
         if ctype == "dict" and mode == "ref" and cfg.get("npkeys") and rng.random() < 0.3:
             ctype = "npdict"
         label = "%s%s" % (labels[i], salt if cfg.get("salt_labels", True) else "")
-        if _keyword.iskeyword(label) or label in ("f", "math", "None", "True", "False"):
-            label += "q"             # 'r' + 'aise', 'o' + 'r', 't' + 'ry' ...: a label must be usable as a name in printed text
+        if _keyword.iskeyword(label) or label in ("f", "math", "None", "True", "False", "round", "abs", "divmod", "set", "str", "sum",
+                                                   "sorted", "slice", "type", "tuple", "super", "open", "oct", "ord", "object", "range",
+                                                   "repr", "reversed", "getattr", "globals", "setattr", "staticmethod"):
+            # 'r' + 'aise', 'o' + 'r', 't' + 'ry' ...: a label must be usable as a name in printed text; 'r' + 'ound' would
+            # shadow the builtin that printed text calls (eval then builds a call of the *container*, which prints alike)
+            label += "q"
         roots.append((label, mode, ctype, children(ctype, max(share[i], 1), 1)))
     return Spec(tuple(roots), funcs=cfg.get("funcs", True))
 
